@@ -14,10 +14,10 @@ CHECKS = {
          "Decides a structural condition that is necessary and, for the error sources that exist in main.go, sufficient: every non-nil error on the input→parse→compile→output path reaches a non-zero exit on every CFG path; a nil error is only returned after printer.Fprint(out) succeeded; flags reach the parameter of the same meaning. 'other' because it is a static path property of the CLI source, not an exploration of runs.",
          "DESIGN.md §4 C18",
          "Trusts go/ssa's CFG of main.go; assumes os.Exit(≠0)/log.Fatal/panic terminate with non-zero status and that bytes.Buffer writes cannot fail; does not cover OS behaviour after Fprint returned nil."),
- "C16": ("path-sensitive nil-guard analysis of the two sentinel links and pointer-origin (freshness) analysis of every store, on go/ssa of set/set.go",
-         "Decides only the last sentence of the property (no panic on the empty set through the sentinel links; operands never modified). The arithmetic clauses (membership, cardinality, union, complement, equality) are values of executions over insertion histories and are explicitly not decided.",
+ "C16": ("abstract evaluation of set/set.go's source by a Go-subset interpreter on every insertion history of bounded length over a small universe, made representative by a structural order-invariance rule on the typed syntax (code points are only compared, copied and stepped by one); path-sensitive nil-guard analysis of the two sentinel links and pointer-origin (freshness) analysis of every store, on go/ssa",
+         "Decides, for every history of at most 3 insertions (pairs: at most 2 each) and — by order-invariance — for any code points with the same order/adjacency pattern, that Has, Len, String, Copy, Complement, Union, Intersects and Equal return what the set of integers gives and dereference no nil pointer; and, for sets of any size, that the sentinel links are never dereferenced unguarded and operands are never modified. Not decided: longer histories (induction over the interval list), int32 overflow, inverted ranges.",
          "DESIGN.md §4 C16",
-         "Trusts go/ssa; assumes the list-shape invariant of AddRange for walks through *Node aliases (not decided); partial claim: set arithmetic is not covered."),
+         "Trusts go/ssa and the interpreter (interp.go); the enumeration is bounded in history length, not in the values."),
  "C09": ("interprocedural mod/ref (write/read set) disjointness of the fork-join closures over go/ssa with a field-based location abstraction; must-pass-through join check; global-store and nondeterminism-source search over the reachable call graph",
          "Decides that the two analysis goroutines share no written location (sound under the over-approximating field-based abstraction), that the spawner joins before touching their results, that no package-level state is written at run time and that no source of run-to-run variation (map iteration, select, clock, randomness, environment, pointer formatting) is reachable from Compile, the builder API or main. These are the structural conditions that make generation a pure function; byte-identity itself is not observed.",
          "DESIGN.md §4 C09",
